@@ -11,6 +11,7 @@ import (
 	"strings"
 
 	"github.com/glyphlang/glyph/pkg/ast"
+	"github.com/glyphlang/glyph/pkg/server"
 )
 
 // c02Calls lists the function-call names of a statement list in source order.
@@ -108,8 +109,11 @@ func c02Key(min c02Case, oi, ov c02Outcome, vmSet, interpSet map[string]bool) st
 	}
 	// VM locals are one flat name-keyed store: a for loop's variables overwrite an
 	// enclosing loop's or an earlier declaration's variable of the same name
-	if c02ForClobbers(body, map[string]bool{}) && ci != "panic" && cv != "hang" {
-		return "for-loop-variable-overwrites-same-name-variable-in-vm"
+	if kind := c02ForClobbers(body, c02RouteBound(min.route)); kind != "" && ci != "panic" && cv != "hang" {
+		if kind == "variable" {
+			return "for-loop-variable-overwrites-same-name-variable-in-vm"
+		}
+		return "for-loop-variable-overwrites-same-name-" + kind + "-in-vm"
 	}
 	// `$ obj.field = v` compiles to a store into a variable named "obj.field"
 	for _, t := range c02AssignTargets(body) {
@@ -122,9 +126,18 @@ func c02Key(min c02Case, oi, ov c02Outcome, vmSet, interpSet map[string]bool) st
 		switch t {
 		case "input", "query", "headers", "ws", "auth":
 			if ci == "fail" && cv == "ok" {
+				if t == "ws" {
+					// the compiler alone knows a request variable ws on HTTP routes
+					return "request-variable-redeclared/ws/interp=fail,vm=ok"
+				}
 				return "request-variable-redeclared/interp=fail,vm=ok"
 			}
 		}
+	}
+	// a `$` inside an async block declares the name for the rest of the route at
+	// compile time, while at run time the block's variables live in its own VM
+	if n := c02AsyncLeak(body); n != "" && cv == "fail" && ci != "fail" {
+		return "async-block-declaration-read-after-the-block/interp=" + ci + ",vm=fail"
 	}
 	// a statement kind the compiler drops
 	if c02HasValidation(body) && cv == "ok" && ci != "ok" {
@@ -291,52 +304,74 @@ func c02AssignTargets(b []ast.Statement) []string {
 	return out
 }
 
-// c02ForClobbers: does a for statement bind a name that is already bound by an
-// enclosing for statement or declared earlier with `$`?
-func c02ForClobbers(b []ast.Statement, bound map[string]bool) bool {
-	local := map[string]bool{}
-	for k := range bound {
-		local[k] = true
+// c02ForClobbers: does a for statement bind a name that is already bound - by
+// an enclosing for statement, an earlier `$`, or (bound, on entry) the request?
+// It returns the kind of the first such name, "" if there is none.
+func c02ForClobbers(b []ast.Statement, bound map[string]string) string {
+	local := map[string]string{}
+	for k, v := range bound {
+		local[k] = v
 	}
 	for _, s := range b {
 		switch x := s.(type) {
 		case ast.AssignStatement:
-			local[x.Target] = true
+			local[x.Target] = "variable"
 		case ast.ForStatement:
-			if (x.KeyVar != "" && local[x.KeyVar]) || local[x.ValueVar] {
-				return true
+			if x.KeyVar != "" && local[x.KeyVar] != "" {
+				return local[x.KeyVar]
 			}
-			inner := map[string]bool{}
-			for k := range local {
-				inner[k] = true
+			if local[x.ValueVar] != "" {
+				return local[x.ValueVar]
 			}
-			inner[x.ValueVar] = true
+			inner := map[string]string{}
+			for k, v := range local {
+				inner[k] = v
+			}
+			inner[x.ValueVar] = "variable"
 			if x.KeyVar != "" {
-				inner[x.KeyVar] = true
+				inner[x.KeyVar] = "variable"
 			}
-			if c02ForClobbers(x.Body, inner) {
-				return true
+			if k := c02ForClobbers(x.Body, inner); k != "" {
+				return k
 			}
 		case ast.IfStatement:
-			if c02ForClobbers(x.ThenBlock, local) || c02ForClobbers(x.ElseBlock, local) {
-				return true
+			if k := c02ForClobbers(x.ThenBlock, local); k != "" {
+				return k
+			}
+			if k := c02ForClobbers(x.ElseBlock, local); k != "" {
+				return k
 			}
 		case ast.WhileStatement:
-			if c02ForClobbers(x.Body, local) {
-				return true
+			if k := c02ForClobbers(x.Body, local); k != "" {
+				return k
 			}
 		case ast.SwitchStatement:
 			for _, c := range x.Cases {
-				if c02ForClobbers(c.Body, local) {
-					return true
+				if k := c02ForClobbers(c.Body, local); k != "" {
+					return k
 				}
 			}
-			if c02ForClobbers(x.Default, local) {
-				return true
+			if k := c02ForClobbers(x.Default, local); k != "" {
+				return k
 			}
 		}
 	}
-	return false
+	return ""
+}
+
+// c02RouteBound lists the names the request binds in a route before its body runs.
+func c02RouteBound(route *ast.Route) map[string]string {
+	m := map[string]string{"input": "request-variable", "query": "request-variable", "headers": "request-variable", "ws": "request-variable"}
+	if route.Auth != nil {
+		m["auth"] = "request-variable"
+	}
+	for _, q := range route.QueryParams {
+		m[q.Name] = "query-parameter"
+	}
+	for _, n := range server.ExtractRouteParamNames(route.Path) {
+		m[n] = "path-parameter"
+	}
+	return m
 }
 
 // c02IntFloatEqSite finds an equality test between an int literal and a float
@@ -411,4 +446,32 @@ func c02AsyncWithoutReturn(b []ast.Statement) bool {
 		return e
 	})
 	return found
+}
+
+// c02AsyncLeak returns a name that a top-level statement declares with `$`
+// inside an async block and a later top-level statement reads ("" if none).
+func c02AsyncLeak(b []ast.Statement) string {
+	declared := map[string]bool{}
+	for _, st := range b {
+		// a read of a name an earlier statement's async block declared
+		found := ""
+		c02MapStmts([]ast.Statement{st}, func(e ast.Expr) ast.Expr {
+			if v, ok := e.(ast.VariableExpr); ok && declared[v.Name] && found == "" {
+				found = v.Name
+			}
+			return e
+		})
+		if found != "" {
+			return found
+		}
+		c02MapStmts([]ast.Statement{st}, func(e ast.Expr) ast.Expr {
+			if a, ok := e.(ast.AsyncExpr); ok {
+				for _, t := range c02AssignTargets(a.Body) {
+					declared[t] = true
+				}
+			}
+			return e
+		})
+	}
+	return ""
 }
